@@ -34,8 +34,13 @@ def _transform_create(expression: exp.Expr) -> exp.Expr:
             elif isinstance(e, exp.PrimaryKey):
                 primary_key = e
 
-        if primary_key and len(primary_key.expressions) == 1:
-            column = defs[primary_key.expressions[0].name]
+        # a key over an expression or over a name that isn't one of the column definitions stays table-level
+        column = (
+            defs.get(primary_key.expressions[0].name)
+            if primary_key and len(primary_key.expressions) == 1
+            else None
+        )
+        if primary_key and column:
             column.append(
                 "constraints", exp.ColumnConstraint(kind=exp.PrimaryKeyColumnConstraint())
             )
